@@ -317,15 +317,19 @@ func (a *actor) prepareScript(scriptName, actName string, pCmd cmd, redirect boo
 	//    -a auto-exports all variables
 	f.WriteString("set -euao pipefail\n")
 	// Ensure files are created from the working directory.
-	fmt.Fprintf(f, "cd '%s'\n", a.workDir)
+	fmt.Fprintf(f, "cd %s\n", shQuote(a.workDir))
 	fmt.Fprintf(f, "TMPDIR=$PWD HOME=$PWD/..\n")
 	if redirect {
+		// The directory and the action name are not under our control
+		// (-o, the current directory; identifiers can contain symbols
+		// like $ < > | `): they are quoted for the shell.
+		logName := shQuote(actName + ".log")
 		// Output a timestamp in the log to distinguish runs.
-		fmt.Fprintf(f, "TZ=UTC date +%%Y-%%m-%%dT%%H:%%M:%%SZ >>%s.log\n", actName)
+		fmt.Fprintf(f, "TZ=UTC date +%%Y-%%m-%%dT%%H:%%M:%%SZ >>%s\n", logName)
 		// Inform the shakespeare log of where the output is going
-		fmt.Fprintf(f, "echo output redirected to %s/%s.log\n", a.workDir, actName)
+		fmt.Fprintf(f, "echo output redirected to %s\n", shQuote(a.workDir+"/"+actName+".log"))
 		// Retain the stdout/stderr output to a per-action log.
-		fmt.Fprintf(f, "exec >>%s.log 2>&1\n", actName)
+		fmt.Fprintf(f, "exec >>%s 2>&1\n", logName)
 	}
 	// Trace the execution. We do this before setting the
 	// environment so as to see the expanded values.
@@ -339,6 +343,11 @@ func (a *actor) prepareScript(scriptName, actName string, pCmd cmd, redirect boo
 	f.WriteString(string(pCmd))
 	f.WriteString("\n")
 	return nil
+}
+
+// shQuote quotes a string for the shell.
+func shQuote(s string) string {
+	return "'" + strings.ReplaceAll(s, "'", `'\''`) + "'"
 }
 
 func (a *actor) makeShCmd(ctx context.Context, bindCtx bool, script string) *exec.Cmd {
